@@ -588,12 +588,10 @@ fn is_subzone(parent: &Name, child: &Name) -> bool {
     p.len() <= c.len() && c[c.len() - p.len()..] == p[..]
 }
 
-fn net_contains(nets: &[IpNet], ip: &IpAddr) -> bool {
-    nets.iter().any(|n| n.contains(ip))
-}
-
+/// what the configured lists say about an address (independent reference, see `acl::ref_denied`: the address
+/// is judged in canonical form — only `::ffff:0:0/96` maps to IPv4 — by the networks of its own family)
 fn denied(deny: &[IpNet], allow: &[IpNet], ip: &IpAddr) -> bool {
-    net_contains(deny, ip) && !net_contains(allow, ip)
+    acl::ref_denied(allow, deny, ip)
 }
 
 fn rec_ip(r: &Rec) -> Option<IpAddr> {
@@ -860,6 +858,7 @@ pub fn exec(line: &str, rec: &mut Recorder) {
     match t.first() {
         Some(&"res") | Some(&"conc") => exec_res(line, &t, rec),
         Some(&"stub") => stub::exec(line, &t, rec),
+        Some(&"acl") => acl::exec(line, &t, rec),
         _ => rec.stat("skipped.unparsable-case"),
     }
 }
@@ -895,8 +894,12 @@ fn exec_res(line: &str, t: &[&str], rec: &mut Recorder) {
                 // a client that gave up (depth limit, unreachable / refusing servers) leaves a partial cache state
                 // that depends on the interleaving: the probes then have no deterministic model side
                 let unstable = outs[w..(w + b_).min(outs.len())].iter().any(|x| x.class == "err" || x.class == "limit");
+                // with lowered limits a client's outcome depends on what the other clients have cached meanwhile
+                let tight = case.nl < 24 || case.rl < 24;
                 if k < w {
                     fmt_outcome(&case, o)
+                } else if tight {
+                    (if k < w + b_ { "B:~" } else { "P:~" }).to_string()
                 } else if k < w + b_ {
                     format!("B:{}", fmt_short(o))
                 } else if unstable {
@@ -1119,6 +1122,13 @@ pub fn run(o: &Opts, rec: &mut Recorder) {
     let n = o.n(150, 4000);
     for _ in 0..n {
         let line = stub::gen(&mut r);
+        exec(&line, rec);
+    }
+    // the address filters: AccessControlSet::denied directly, then end to end through the recursor
+    acl::run(o, &mut r, rec);
+    let n = o.n(200, 5000);
+    for _ in 0..n {
+        let line = gen::acl_world(&mut r).line();
         exec(&line, rec);
     }
     // concurrent clients (servers answer after 2 ms of real time, so these are the slow cases)
@@ -1816,6 +1826,76 @@ pub mod gen {
             c.conc = Some((0, 4));
             out.push(("concurrent-clients-kaminsky", c));
         }
+        // 15. the address filters with IPv6 entries: loopback / unspecified / v4-compatible / v4-mapped addresses
+        //     as glue, as results of glueless lookups, and as answers
+        {
+            use super::acl::v6;
+            let m = 0xffffu128 << 32;
+            // glue `ns.lame.com AAAA ::1` with deny_server ::1/128 (+ an unrelated v4 list)
+            let mut w = base(false);
+            let gl = w.group(vec![v6(1)]);
+            w.zone("lame.com.", gl, &["ns.lame.com."], true);
+            let r = w.a("www.lame.com.", evil);
+            w.add_auto(r);
+            w.finish();
+            let q1 = w.intern("www.lame.com.");
+            let roots = w.group_ips[0].clone();
+            let mut c = w.case(roots, vec![(q1, 1), (q1, 1)], 24, 24);
+            c.deny_srv = vec![IpNet::new(v6(1), 128).unwrap(), IpNet::new(v4(10, 0, 0, 0), 8).unwrap()];
+            out.push(("acl-v6-loopback-glue-denied", c));
+            // glueless: the NS host (under net.) resolves to `::` and `::44.0.9.1`, deny_server ::/96
+            let mut w = base(false);
+            let gl = w.group(vec![v6(0), v6(0x2c00_0901)]);
+            w.zone("lame.com.", gl, &["ns1.hoster.net.", "ns2.hoster.net."], false);
+            let r = w.a("www.lame.com.", evil);
+            w.add_auto(r);
+            w.finish();
+            let q1 = w.intern("www.lame.com.");
+            let roots = w.group_ips[0].clone();
+            let mut c = w.case(roots, vec![(q1, 1)], 24, 24);
+            c.deny_srv = vec![IpNet::new(v6(0), 96).unwrap()];
+            out.push(("acl-v6-unspecified-and-compatible-glueless-denied", c));
+            // a v4-mapped server address is judged by the v4 list, not by a v6 network covering the mapped range
+            let mut w = base(false);
+            let gl = w.group(vec![v6(m | 0x2c00_0901)]);
+            w.zone("mapped.com.", gl, &["ns.mapped.com."], true);
+            let r = w.a("www.mapped.com.", v4(44, 1, 1, 1));
+            w.add_auto(r);
+            w.finish();
+            let q1 = w.intern("www.mapped.com.");
+            let roots = w.group_ips[0].clone();
+            let mut c = w.clone().case(roots.clone(), vec![(q1, 1)], 24, 24);
+            c.deny_srv = vec![net32(v4(44, 0, 9, 1))];
+            out.push(("acl-v4-mapped-server-denied-by-v4-list", c));
+            let mut c = w.case(roots, vec![(q1, 1)], 24, 24);
+            c.deny_srv = vec![IpNet::new(v6(m), 96).unwrap()];
+            out.push(("acl-v4-mapped-server-not-denied-by-v6-net", c));
+            // answers
+            let mut w = base(false);
+            let ge = w.std_group(1);
+            w.zone("example.com.", ge, &["ns.example.com."], true);
+            for ip in [v6(1), v6(0), v6((0x2a00u128 << 112) | 7), v6(m | 0x2c01_0101), v6(0x2c01_0101), v6((0xfe80u128 << 112) | 1)] {
+                let r = w.a("www.example.com.", ip);
+                w.add_auto(r);
+            }
+            let r = w.a("www.example.com.", v4(44, 1, 1, 1));
+            w.add_auto(r);
+            let r = w.a("www.example.com.", v4(0, 0, 0, 1));
+            w.add_auto(r);
+            w.finish();
+            let q1 = w.intern("www.example.com.");
+            let roots = w.group_ips[0].clone();
+            let mut c = w.clone().case(roots.clone(), vec![(q1, 28), (q1, 1), (q1, 28)], 24, 24);
+            c.deny_ans = vec![IpNet::new(v6(1), 128).unwrap(), IpNet::new(v6(0), 128).unwrap(), net32(v4(44, 1, 1, 1))];
+            out.push(("acl-v6-answers-loopback-unspecified-mapped", c));
+            let mut c = w.clone().case(roots.clone(), vec![(q1, 28), (q1, 1)], 24, 24);
+            c.deny_ans = vec![IpNet::new(v6(0), 64).unwrap(), IpNet::new(v6(0xfe80u128 << 112), 10).unwrap()];
+            c.allow_ans = vec![IpNet::new(v6(0x2c01_0101), 128).unwrap()];
+            out.push(("acl-v6-answers-low64-denied-with-exception", c));
+            let mut c = w.case(roots, vec![(q1, 28), (q1, 1)], 24, 24);
+            c.deny_ans = vec![IpNet::new(v4(0, 0, 0, 0), 8).unwrap(), IpNet::new(v6(m), 96).unwrap()];
+            out.push(("acl-v4-zero-net-does-not-cover-v6-loopback", c));
+        }
         // 13b. negative answer carrying an in-bailiwick address the answer filter denies
         {
             let mut w = base(false);
@@ -1891,6 +1971,56 @@ pub mod gen {
             }
         }
         c.queries = warm.into_iter().chain(batch).chain(probes).collect();
+        c
+    }
+
+    /// the address filters end to end: a zone whose servers live on special addresses (glue or glueless), hosts
+    /// with special A/AAAA answers, custom allow/deny lists of both families for both filters
+    pub fn acl_world(r: &mut Rng) -> Case {
+        use super::acl::{addrs, nets};
+        let special = addrs();
+        let mut w = base(false);
+        let nsrv = r.range(1, 2) as usize;
+        let ips: Vec<IpAddr> = (0..nsrv).map(|_| *r.pick(&special)).collect();
+        let gl = w.group(ips);
+        let glueless = r.chance(1, 2);
+        if glueless {
+            w.zone("filtered.com.", gl, &["ns1.hoster.net.", "ns2.hoster.net."][..nsrv], false);
+        } else {
+            w.zone("filtered.com.", gl, &["ns1.filtered.com.", "ns2.filtered.com."][..nsrv], true);
+        }
+        let nans = r.range(1, 5);
+        for _ in 0..nans {
+            let ip = *r.pick(&special);
+            let rec = w.a("www.filtered.com.", ip);
+            if !w.zones.iter().any(|z| z.records.contains(&rec)) {
+                w.add_auto(rec);
+            }
+        }
+        w.finish();
+        let q1 = w.intern("www.filtered.com.");
+        let roots = w.group_ips[0].clone();
+        let mut qs = vec![(q1, 28), (q1, 1)];
+        if r.chance(1, 2) {
+            qs.push((q1, *r.pick(&[1u16, 28])));
+        }
+        let mut c = w.case(roots, qs, 24, 24);
+        let all = nets();
+        let pick_list = |r: &mut Rng, lo: u64, hi: u64| -> Vec<IpNet> { (0..r.range(lo, hi)).map(|_| *r.pick(&all)).collect() };
+        if r.chance(3, 4) {
+            c.deny_srv = pick_list(r, 1, 3);
+            if r.chance(1, 3) {
+                c.allow_srv = pick_list(r, 1, 2);
+            }
+            // the honest infrastructure (44.0.x.y) stays reachable unless a /0 was drawn
+            c.allow_srv.push(IpNet::new(v4(44, 0, 0, 0), 16).unwrap());
+        }
+        if r.chance(3, 4) {
+            c.deny_ans = pick_list(r, 1, 3);
+            if r.chance(1, 3) {
+                c.allow_ans = pick_list(r, 1, 2);
+            }
+        }
         c
     }
 
@@ -2085,6 +2215,228 @@ pub mod gen {
             }
         }
         c
+    }
+}
+
+pub mod acl {
+    //! `acl <allow nets> <deny nets> <ip>`: the real `AccessControlSet::denied` against the model and against an
+    //! independent reference (RFC 4291 §2.5.5.2: only `::ffff:0:0/96` is the IPv4-mapped range).
+    use super::*;
+    use hickory_proto::access_control::AccessControlSetBuilder;
+
+    fn bits(ip: &IpAddr) -> (bool, u128, u32) {
+        match ip {
+            IpAddr::V4(a) => (false, u32::from(*a) as u128, 32),
+            IpAddr::V6(a) => (true, u128::from(*a), 128),
+        }
+    }
+
+    /// reference: family match + equal leading bits
+    fn ref_contains(n: &IpNet, ip: &IpAddr) -> bool {
+        let (n6, na, w) = bits(&n.addr());
+        let (i6, ia, _) = bits(ip);
+        if n6 != i6 {
+            return false;
+        }
+        let len = n.prefix_len() as u32;
+        if len == 0 {
+            return true;
+        }
+        (na >> (w - len)) == (ia >> (w - len))
+    }
+
+    pub fn ref_denied(allow: &[IpNet], deny: &[IpNet], ip: &IpAddr) -> bool {
+        let canon = match ip {
+            IpAddr::V6(a) => match a.to_ipv4_mapped() {
+                Some(v4) => IpAddr::V4(v4),
+                None => *ip,
+            },
+            _ => *ip,
+        };
+        !deny.is_empty() && deny.iter().any(|n| ref_contains(n, &canon)) && !allow.iter().any(|n| ref_contains(n, &canon))
+    }
+
+    pub fn exec(line: &str, t: &[&str], rec: &mut Recorder) {
+        if t.len() != 4 {
+            rec.stat("skipped.unparsable-case");
+            return;
+        }
+        let (Some(allow), Some(deny), Some(ip)) = (parse_list(t[1], ',', parse_net), parse_list(t[2], ',', parse_net), parse_ip(t[3])) else {
+            rec.stat("skipped.unparsable-case");
+            return;
+        };
+        let r = catch(|| AccessControlSetBuilder::new("verif").allow(allow.iter()).deny(deny.iter()).build().map(|acs| acs.denied(ip)));
+        rec.stat("op.acl");
+        match r {
+            Ok(Ok(d)) => {
+                let idx = rec.case(line.to_string(), b(d).to_string());
+                let want = ref_denied(&allow, &deny, &ip);
+                if d != want {
+                    rec.fail(idx, format!("AccessControlSet::denied({}) = {d} but the lists say {want} (allow {}, deny {})", ip_tok(&ip), t[1], t[2]), "");
+                }
+                let fam = match ip {
+                    IpAddr::V4(_) => "v4",
+                    IpAddr::V6(a) if a.to_ipv4_mapped().is_some() => "v6-mapped",
+                    IpAddr::V6(a) if u128::from(a) < (1u128 << 32) => "v6-low32(compatible,::1,::)",
+                    IpAddr::V6(_) => "v6",
+                };
+                rec.stat(&format!("acl.{fam}.{}", if d { "denied" } else { "allowed" }));
+                if !deny.is_empty() {
+                    rec.nontrivial(idx);
+                }
+            }
+            Ok(Err(_)) => {
+                let idx = rec.case(line.to_string(), "err".to_string());
+                if !(deny.is_empty() && !allow.is_empty()) {
+                    rec.fail(idx, "AccessControlSetBuilder::build failed on a set with deny networks", "");
+                }
+            }
+            Err(p) => {
+                let idx = rec.case(line.to_string(), format!("panic {p}"));
+                rec.fail(idx, format!("panic: {p}"), "");
+            }
+        }
+    }
+
+    pub fn v6(x: u128) -> IpAddr {
+        IpAddr::V6(Ipv6Addr::from(x))
+    }
+
+    /// networks of every prefix-length class, both families
+    pub fn nets() -> Vec<IpNet> {
+        let n = |ip: IpAddr, len: u8| IpNet::new(ip, len).unwrap();
+        let m = 0xffffu128 << 32;
+        vec![
+            n(gen::v4(0, 0, 0, 0), 0),
+            n(gen::v4(0, 0, 0, 0), 8),
+            n(gen::v4(10, 0, 0, 0), 8),
+            n(gen::v4(127, 0, 0, 0), 8),
+            n(gen::v4(44, 1, 1, 0), 31),
+            n(gen::v4(44, 1, 1, 1), 32),
+            n(gen::v4(0, 0, 0, 1), 32),
+            n(v6(0), 0),
+            n(v6(0), 8),
+            n(v6(0), 64),
+            n(v6(0), 96),
+            n(v6(0), 128),
+            n(v6(1), 128),
+            n(v6(m), 96),
+            n(v6(m | 0x2c01_0101), 128),
+            n(v6(0x2c01_0101), 128),
+            n(v6(0xfe80u128 << 112), 10),
+            n(v6(0xfe80u128 << 112), 64),
+            n(v6(0x2a00u128 << 112), 8),
+            n(v6((0x2a00u128 << 112) | 7), 128),
+        ]
+    }
+
+    /// ordinary, mapped, compatible, loopback, unspecified, link-local addresses
+    pub fn addrs() -> Vec<IpAddr> {
+        let m = 0xffffu128 << 32;
+        vec![
+            gen::v4(44, 1, 1, 1),
+            gen::v4(44, 1, 1, 0),
+            gen::v4(44, 1, 1, 2),
+            gen::v4(10, 0, 0, 0),
+            gen::v4(9, 255, 255, 255),
+            gen::v4(11, 0, 0, 0),
+            gen::v4(0, 0, 0, 0),
+            gen::v4(0, 0, 0, 1),
+            gen::v4(1, 0, 0, 0),
+            gen::v4(127, 0, 0, 1),
+            gen::v4(255, 255, 255, 255),
+            v6((0x2a00u128 << 112) | 7),
+            v6((0x2a00u128 << 112) | 6),
+            v6((0x2a00u128 << 112) | 8),
+            v6(m | 0x2c01_0101),
+            v6(m | 0x2c01_0102),
+            v6(m),
+            v6(m | 0xffff_ffff),
+            v6(m - 1),
+            v6(1u128 << 48),
+            v6(0x2c01_0101),
+            v6(1),
+            v6(0),
+            v6(2),
+            v6(0xffff_ffff),
+            v6(1u128 << 32),
+            v6((1u128 << 64) - 1),
+            v6(1u128 << 64),
+            v6((0xfe80u128 << 112) | 1),
+            v6((0xfe80u128 << 112) | (1u128 << 64)),
+            v6((0xfe7fu128 << 112) | 1),
+            v6(0xfec0u128 << 112),
+            v6(1u128 << 120),
+            v6(0xffu128 << 120),
+            v6(u128::MAX),
+        ]
+    }
+
+    /// first - 1, first, last, last + 1 of a network
+    fn boundaries(n: &IpNet) -> Vec<IpAddr> {
+        let (six, a, w) = bits(&n.addr());
+        let len = n.prefix_len() as u32;
+        let host = if len == 0 { if w == 32 { u32::MAX as u128 } else { u128::MAX } } else if len == w { 0 } else { (1u128 << (w - len)) - 1 };
+        let first = a & !host;
+        let last = first | host;
+        let max = if w == 32 { u32::MAX as u128 } else { u128::MAX };
+        let mk = |x: u128| if six { v6(x) } else { IpAddr::V4(Ipv4Addr::from(x as u32)) };
+        let mut v = vec![mk(first), mk(last)];
+        if first > 0 {
+            v.push(mk(first - 1));
+        }
+        if last < max {
+            v.push(mk(last + 1));
+        }
+        v
+    }
+
+    fn line(allow: &[IpNet], deny: &[IpNet], ip: &IpAddr) -> String {
+        format!("acl {} {} {}", list_tok(allow, ",", net_tok), list_tok(deny, ",", net_tok), ip_tok(ip))
+    }
+
+    /// the directed grid (always run in full: it is cheap) + random combinations
+    pub fn run(o: &Opts, r: &mut Rng, rec: &mut Recorder) {
+        if o.replay_only {
+            return;
+        }
+        let nets = nets();
+        let addrs = addrs();
+        // one deny network, no allow list: every address class and the boundaries of the network
+        for d in &nets {
+            for ip in addrs.iter().cloned().chain(boundaries(d)) {
+                super::exec(&line(&[], &[*d], &ip), rec);
+            }
+        }
+        // a broad deny network with every allow exception
+        let broad: Vec<IpNet> = nets.iter().filter(|n| n.prefix_len() <= 8 || (n.prefix_len() == 96) || n.prefix_len() == 64).cloned().collect();
+        for d in &broad {
+            for a in &nets {
+                for ip in addrs.iter().cloned().chain(boundaries(a)) {
+                    super::exec(&line(&[*a], &[*d], &ip), rec);
+                }
+            }
+        }
+        // an allow list without deny networks is rejected by the builder
+        super::exec(&line(&[nets[0]], &[], &addrs[0]), rec);
+        super::exec(&line(&[], &[], &addrs[0]), rec);
+        // random combinations
+        let n = o.n(1500, 30000);
+        for _ in 0..n {
+            let na = r.below(3) as usize;
+            let nd = r.range(1, 3) as usize;
+            let allow: Vec<IpNet> = (0..na).map(|_| *r.pick(&nets)).collect();
+            let deny: Vec<IpNet> = (0..nd).map(|_| *r.pick(&nets)).collect();
+            let ip = if r.chance(1, 3) {
+                {
+                    let d = *r.pick(&deny);
+                    *r.pick(&boundaries(&d))
+                }
+            } else {
+                *r.pick(&addrs)
+            };
+            super::exec(&line(&allow, &deny, &ip), rec);
+        }
     }
 }
 
